@@ -10,11 +10,6 @@ def step? : Sexp → Option Step
   | .list [.atom "ve"] => some .valueEnd          -- yield Value(END_OF_GENERATOR)
   | _ => none
 
-/-- header: `(body <step>...) (nest k)` -/
-def header? : List Sexp → Option (Body × Nat)
-  | [.list (.atom "body" :: steps), .list [.atom "nest", k]] => do some ((← steps.mapM step?), (← k.nat?))
-  | _ => none
-
 def adv? : Sexp → Option Adv
   | .list [.atom "next"] => some .next
   | .list [.atom "take", n] => n.nat?.map .take
@@ -24,9 +19,22 @@ def adv? : Sexp → Option Adv
 def op? : Sexp → Option Op
   | .list [.atom "par", k, a] => do some (.par (← k.nat?) (← adv? a))
   | .list [.atom "next"] => some .next
+  | .list [.atom "send"] => some .send
   | .list [.atom "compute", k] => k.nat?.map .compute
   | .list [.atom "take", n] => n.nat?.map .take
   | .list [.atom "list"] => some .list
+  | _ => none
+
+def annot? : Sexp → Option (Nat × Op)
+  | .list [j, a] => do some ((← j.nat?), (← op? a))
+  | _ => none
+
+/-- header: `(body <step>...) (nest k)`, optionally followed by `(reent (j <advance>)...)`: the re-entrant advances
+    the body attempts (before its j-th item) -/
+def header? : List Sexp → Option (Body × Nat × List (Nat × Op))
+  | [.list (.atom "body" :: steps), .list [.atom "nest", k]] => do some ((← steps.mapM step?), (← k.nat?), [])
+  | [.list (.atom "body" :: steps), .list [.atom "nest", k], .list (.atom "reent" :: an)] => do
+    some ((← steps.mapM step?), (← k.nat?), (← an.mapM annot?))
   | _ => none
 
 def item? : Sexp → Option Item
@@ -40,6 +48,8 @@ def res? : Sexp → Option Res
   | .list (.atom "lst" :: xs) => (xs.mapM item?).map .lst
   | .list [.atom "raised", .atom "StopIteration"] => some (.raised .stopIteration)
   | .list [.atom "raised", .atom "RuntimeError"] => some (.raised .runtimeError)
+  | .list [.atom "raised", .atom "other", .atom "TypeError"] => some (.raised .typeError)
+  | .list [.atom "raised", .atom "other", .atom "ValueError"] => some (.raised .valueError)
   | .list (.atom "raised" :: _) => some (.raised .other)
   | _ => none
 
@@ -49,9 +59,21 @@ def sib? : Sexp → Option (Option (Bool × Res))
   | _ => none
 
 def obs? : Sexp → Option Obs
-  | .list [.atom "obs", op, r, sib, pos, fin, bad] => do
+  | .list (.atom "obs" :: op :: r :: sib :: pos :: fin :: bad :: _) => do
     some { op := (← op? op), res := (← res? r), sib := (← sib? sib), pos := (← pos.nat?), fin := (← fin.bool?),
            bad := (← bad.nat?) }
+  | _ => none
+
+def reEvent? : Sexp → Option ReEvent
+  | .list [j, a, r] => do some { j := (← j.nat?), a := (← op? a), res := (← res? r) }
+  | _ => none
+
+/-- the optional 8th field of an observation: `(re p0 f0 (j <advance> <result>)...)` = items the underlying generator
+    of the BODY has yielded / whether it ran off its end after the operation, and the re-entrant attempts made during it -/
+def reLog? : Sexp → Option (Nat × Bool × List ReEvent)
+  | .list [.atom "obs", _, _, _, pos, fin, _] => do some ((← pos.nat?), (← fin.bool?), [])
+  | .list [.atom "obs", _, _, _, _, _, _, .list (.atom "re" :: p0 :: f0 :: evs)] => do
+    some ((← p0.nat?), (← f0.bool?), (← evs.mapM reEvent?))
   | _ => none
 
 def firstDiff (a b : List Obs) (i : Nat := 0) : Option (Nat × String) :=
@@ -62,8 +84,8 @@ def firstDiff (a b : List Obs) (i : Nat := 0) : Option (Nat × String) :=
   | [], y :: _ => some (i, s!"model=<missing> impl={repr y}")
 
 def handle (id : Nat) (hdr : List Sexp) (body : List Sexp) : String :=
-  match header? hdr, body.mapM obs? with
-  | some (b0, k), some impl =>
+  match header? hdr, body.mapM obs?, body.mapM reLog? with
+  | some (b0, k, annot), some impl, some relog =>
     let b := wrapN k b0
     let ops := impl.map (·.op)
     let model := run (init b) ops
@@ -72,13 +94,22 @@ def handle (id : Nat) (hdr : List Sexp) (body : List Sexp) : String :=
     -- `C17_marker_payload_unsatisfiable`): the correspondence is judged in full, the property only by the clauses
     -- that still make sense there (`outsideClause`)
     let judged := noMarker b0
-    let spec := if judged then specClause b impl else outsideClause impl
+    let spec0 := if judged then specClause b impl else outsideClause impl
     let specm := if judged then specClause b model else outsideClause model
-    let c := match corr with | none => "ok" | some _ => "diff"
+    -- re-entrant advances attempted by the body: direct expectation (Lib/Generator.lean, `reenterExpected`); the
+    -- model has no finer grain than the operation, so the same expectation serves for CORR and SPEC
+    let noRe := annot.isEmpty && relog.all (fun x => x.2.2.isEmpty)
+    let reCorr := if noRe then none else reenterRun true b0 annot 0 false relog     -- the code as it exists
+    let reSpec := if noRe then none else reenterRun false b0 annot 0 false relog    -- what C17 demands
+    let spec := if spec0 != "ok" then spec0 else (match reSpec with | none => "ok" | some c => c)
+    let c := match corr, reCorr with | none, none => "ok" | _, _ => "diff"
     let d := (match corr with | none => "" | some (i, s) => (s!"obs {i}: {s}".replace "\n" " ")) ++
+      (match reCorr with
+        | none => ""
+        | some c => s!" re-entrant advance from the body: {c} (log {repr (relog.map (·.2.2))})".replace "\n" " ") ++
       (if judged then "" else " [marker payload: outside C17, judged by correspondence + end-marker/await-result]")
     let f (s : String) := if s == "ok" then "ok" else "fail:" ++ s
     s!"R {id} CORR={c} SPEC={f spec} SPECM={f specm} | {d}"
-  | _, _ => s!"R {id} CORR=diff SPEC=ok SPECM=ok | unparsable case"
+  | _, _, _ => s!"R {id} CORR=diff SPEC=ok SPECM=ok | unparsable case"
 
 end AsynqModel.Drv.Generator
